@@ -5,7 +5,7 @@ from __future__ import annotations
 
 import ast
 
-from .pyast import Unrecognised, clean, cstr, unparse
+from .pyast import Unrecognised, clean, cstr, is_logger_call, unparse
 
 
 class Ctx:
@@ -418,9 +418,9 @@ def stmt4(s, c: Ctx, subst):
         if c.while_fuel is None:
             raise Unrecognised("while loop without a declared bound")
         return [f"SWhile {int(c.while_fuel)} {expr(s.test, c, subst)} [{'; '.join(block(s.body, c, subst))}]"]
-    if isinstance(s, ast.For) and not s.orelse and not clean(s.body):
+    if isinstance(s, ast.For) and not s.orelse and s.body and all(is_logger_call(x) for x in s.body):
         _pure_message(s.iter)
-        return []                                            # a loop that only logs
+        return []                                            # a loop that only logs (its variables are not read afterwards: unchecked)
     if isinstance(s, ast.Raise) and s.cause is None and isinstance(s.exc, ast.Call) and isinstance(s.exc.func, (ast.Name, ast.Attribute)) \
             and not s.exc.keywords and c.message_vars is not None and c.refs is not None:
         for a in s.exc.args:
